@@ -562,10 +562,11 @@ def render_exec(ctx, sizes=None):
     contents of that size.  Returns (ok, detail)."""
     if sizes is None and getattr(ctx, "_render_exec", None) is not None:
         return ctx._render_exec
-    res = _render_exec(ctx, sizes)
     if sizes is None:
+        res = ctx.memo("render_exec", lambda: list(_render_exec(ctx, None)))
         ctx._render_exec = res
-    return res
+        return res
+    return _render_exec(ctx, sizes)
 
 
 def _render_exec(ctx, sizes=None):
